@@ -262,7 +262,7 @@ func (e *FnEnc) instr(in ssa.Instruction) {
 		h := s.CellHeap(pt.Elem())
 		e.setHeap(h, sx("store", e.heap(h), r, s.Zero(pt.Elem())))
 		e.vals[i] = Val{T: r, Ty: i.Type()}
-		if !escapes(i) {
+		if !e.escapes(i) {
 			e.locals = append(e.locals, localRef{h.Name, r})
 		}
 	case *ssa.FieldAddr:
@@ -319,6 +319,12 @@ func (e *FnEnc) instr(in ssa.Instruction) {
 			t, _ := e.loadIn(e.cur, l)
 			v := e.setVal(i, t)
 			e.assumeValid(v)
+			// a map held in a field of an object owned by go/ssa, go/types, ... belongs to that object (A-imm):
+			// unknown calls leave it unchanged, like the object itself
+			if mt, isMap := i.Type().Underlying().(*types.Map); isMap && !l.Elem && immutableHeap(l.Heap.Name) {
+				sr := e.sorts()
+				e.locals = append(e.locals, localRef{sr.MapDom(mt.Key()).Name, v.T}, localRef{sr.MapVal(mt.Key(), mt.Elem()).Name, v.T}, localRef{MapLen.Name, v.T})
+			}
 		case token.NOT:
 			e.setVal(i, not(x.T))
 		case token.SUB:
@@ -447,7 +453,7 @@ func (e *FnEnc) instr(in ssa.Instruction) {
 		e.setHeap(MapLen, sx("store", e.heap(MapLen), r, "0"))
 		e.vals[i] = Val{T: r, Ty: i.Type()}
 		e.assume(sx("=", e.W.UF("mtype", []string{"Int"}, "Int", r), fmt.Sprint(e.W.TypeID(mt))))
-		if !mapEscapes(i) {
+		if !e.mapEscapes(i) {
 			e.locals = append(e.locals, localRef{md.Name, r}, localRef{s.MapVal(mt.Key(), mt.Elem()).Name, r}, localRef{MapLen.Name, r})
 		}
 	case *ssa.MapUpdate:
@@ -757,7 +763,87 @@ func (e *FnEnc) nextInstr(i *ssa.Next) {
 }
 
 // escapes reports whether the address produced by an Alloc is used as a first-class value.
-func escapes(a *ssa.Alloc) bool {
+// ownedArg: the value is passed, in this call, only in positions the callee's contract declares "owned".
+func (e *FnEnc) ownedArg(c *ssa.CallCommon, v ssa.Value) bool {
+	f := c.StaticCallee()
+	if f == nil || c.IsInvoke() {
+		return false
+	}
+	con := e.W.ContractFor(f)
+	if con == nil || len(con.Owned) == 0 {
+		return false
+	}
+	for k, a := range c.Args {
+		if a != v {
+			continue
+		}
+		if k >= len(f.Params) {
+			return false
+		}
+		ok := false
+		for _, o := range con.Owned {
+			if o == f.Params[k].Name() {
+				ok = true
+			}
+		}
+		if !ok {
+			return false
+		}
+	}
+	return true
+}
+
+// valueEscapes: the pointer / map value v is used as a first-class value somewhere other than in a position declared
+// "owned" by the callee (stored, captured, returned, converted, passed to an unknown function).
+func (e *FnEnc) valueEscapes(v ssa.Value) bool {
+	refs := v.Referrers()
+	if refs == nil {
+		return true
+	}
+	_, isMap := v.Type().Underlying().(*types.Map)
+	for _, r := range *refs {
+		switch u := r.(type) {
+		case *ssa.DebugRef:
+		case *ssa.MapUpdate:
+			if !isMap || u.Map != v {
+				return true
+			}
+		case *ssa.Lookup:
+			if !isMap || u.X != v {
+				return true
+			}
+		case *ssa.Range:
+		case *ssa.FieldAddr:
+			if u.X != v || e.valueEscapes(u) {
+				return true
+			}
+		case *ssa.IndexAddr:
+			if u.X != v || e.valueEscapes(u) {
+				return true
+			}
+		case *ssa.UnOp:
+			if u.Op != token.MUL {
+				return true
+			}
+		case *ssa.Store:
+			if u.Val == v {
+				return true
+			}
+		case *ssa.Call:
+			if b, ok := u.Call.Value.(*ssa.Builtin); ok && (b.Name() == "len" || b.Name() == "delete") {
+				continue
+			}
+			if !e.ownedArg(&u.Call, v) {
+				return true
+			}
+		default:
+			return true
+		}
+	}
+	return false
+}
+
+func (e *FnEnc) escapes(a *ssa.Alloc) bool {
 	if a.Heap {
 		// go/ssa marks "new" allocations; still check uses
 	}
@@ -791,6 +877,10 @@ func escapes(a *ssa.Alloc) bool {
 					return true
 				}
 				// slice of a local array: copy semantics in this model
+			case *ssa.Call:
+				if depth != 0 || !e.ownedArg(&u.Call, v) {
+					return true
+				}
 			default:
 				return true
 			}
@@ -801,7 +891,7 @@ func escapes(a *ssa.Alloc) bool {
 }
 
 // mapEscapes: the map created here is used as a first-class value (stored, passed, returned, captured).
-func mapEscapes(m *ssa.MakeMap) bool {
+func (e *FnEnc) mapEscapes(m *ssa.MakeMap) bool {
 	refs := m.Referrers()
 	if refs == nil {
 		return true
@@ -820,7 +910,10 @@ func mapEscapes(m *ssa.MakeMap) bool {
 		case *ssa.DebugRef:
 		case *ssa.Call:
 			b, ok := u.Call.Value.(*ssa.Builtin)
-			if !ok || (b.Name() != "len" && b.Name() != "delete") {
+			if ok && (b.Name() == "len" || b.Name() == "delete") {
+				continue
+			}
+			if !e.ownedArg(&u.Call, m) {
 				return true
 			}
 		default:
